@@ -333,11 +333,11 @@ class RichCast:
 
 
 # --------------------------------------------------------------------------------------------
-def _alt(spec, n):
+def _alt(spec, n, salt=""):
     """Deterministic choice of an alternative (documented, equivalent) construction route for a spec: the
     generator's random stream is not consumed, the same spec always takes the same route."""
     from rv.core.ctx import stable_hash
-    return stable_hash(repr(sorted((k, repr(v)) for k, v in spec.items() if k not in ("child", "children", "items", "rows", "root")))) % n
+    return stable_hash(salt + repr(sorted((k, repr(v)) for k, v in spec.items() if k not in ("child", "children", "items", "rows", "root")))) % n
 
 
 def build(spec):
@@ -459,9 +459,15 @@ def build_table(spec):
                   expand=spec["expand"], show_header=spec["show_header"], show_footer=spec["show_footer"],
                   show_edge=spec["show_edge"], show_lines=spec["show_lines"], leading=spec["leading"],
                   row_styles=spec["row_styles"], style=spec.get("style", "none"), **spec.get("decor", {}))
-        t = Table(*[Column(build(c["header"]), build(c["footer"]), justify=c["justify"], overflow=c["overflow"],
-                           ratio=c["ratio"], max_width=c["max_width"], width=c["width"], min_width=c["min_width"],
-                           no_wrap=c["no_wrap"], style=c.get("style") or "") for c in spec["columns"]], **kw)
+        cols = [Column(build(c["header"]), build(c["footer"]), justify=c["justify"], overflow=c["overflow"],
+                       ratio=c["ratio"], max_width=c["max_width"], width=c["width"], min_width=c["min_width"],
+                       no_wrap=c["no_wrap"], style=c.get("style") or "") for c in spec["columns"]]
+        if _alt(spec, 3, salt="cols-reused") == 0:
+            # the column definitions were used for another table first (a program that shows two tables of the same
+            # shape): what that table holds is none of this table's business
+            earlier = Table(*cols)
+            earlier.add_row(*["EARLIER-TABLE"] * len(cols))
+        t = Table(*cols, **kw)
         declared = 0
         spec = dict(spec, columns=[])       # (only for the loop below: nothing left to declare)
         for r in spec["rows"]:
